@@ -48,7 +48,7 @@ for pid, (cat, text, tech, ref) in sorted(claimed.items()):
       "replay_cmd_template": "./check --replay {path}",
       "engine": "govc",
       "level_claimed": {"category": cat, "text": text, "design_ref": "DESIGN.md section " + ref},
-      "level_note": "Trusted: govc (VC generator written for this task), go/types, z3 4.8.12 / z3 5.1.0 / cvc5 1.0, extern contracts in contracts/*.gvc, mathematical integers under bounded preconditions. Per-run assumptions are listed in the evidence file.",
+      "level_note": ("Tiers: the quick command leaves eleven long-running functions (ReadFromTeletext, ReadFromSTL, ReadFromTTML, ReadFromWebVTT, WriteToWebVTT, WriteToTTML, five teletext packet-buffer methods) to the thorough command, which sweeps every function; C08's command runs the non-entry-point half of the sweep, C18's the entry-point half (including their panic-freedom obligations); see DESIGN.md section 3. " if pid in ("C08","C18","C19","C20") else "") + "Trusted: govc (VC generator written for this task), go/types, z3 4.8.12 / z3 5.1.0 / cvc5 1.0, extern contracts in contracts/*.gvc, mathematical integers under bounded preconditions. Per-run assumptions are listed in the evidence file.",
       "technique": tech,
     })
 commits = subprocess.run(["git","-C","/repo","log","--format=%h %s"],capture_output=True,text=True).stdout.strip().split("\n")
